@@ -105,7 +105,8 @@ func NormalizeInput(item bool, in map[string]any) (map[string]any, error) {
 		fields = []fld{{"v", "int", true, nil}, {"mode", "string", false, "ok"}, {"dur", "int", false, int64(0)}, {"tag", "string", false, ""}}
 	} else {
 		fields = []fld{{"n", "int", true, nil}, {"m", "int", false, int64(7)}, {"tag", "string", true, nil}, {"flag", "bool", true, nil},
-			{"opt", "string", false, nil}, {"zero", "int", false, int64(0)}, {"items", "items", false, nil}, {"nested", "nested", false, nil}}
+			{"opt", "string", false, nil}, {"zero", "int", false, int64(0)}, {"items", "items", false, nil}, {"nested", "nested", false, nil},
+			{"ports", "intmap", false, nil}}
 	}
 	known := map[string]bool{}
 	for _, f := range fields {
@@ -143,6 +144,25 @@ func NormalizeInput(item bool, in map[string]any) (map[string]any, error) {
 				return nil, fmt.Errorf("field %s: %w", f.name, err)
 			}
 			out[f.name] = b
+		case "intmap":
+			// a map with integer keys and string values; the model keeps the keys in decimal notation
+			m, ok := v.(map[string]any)
+			if !ok {
+				return nil, fmt.Errorf("field %s: not a map", f.name)
+			}
+			res := map[string]any{}
+			for k, x := range m {
+				ki, err := toInt(k)
+				if err != nil {
+					return nil, fmt.Errorf("field %s: key %q: %w", f.name, k, err)
+				}
+				xs, err := toStr(x)
+				if err != nil {
+					return nil, fmt.Errorf("field %s[%s]: %w", f.name, k, err)
+				}
+				res[fmt.Sprint(ki)] = xs
+			}
+			out[f.name] = res
 		case "items":
 			l, ok := v.([]any)
 			if !ok {
@@ -511,6 +531,15 @@ func (f *Facts) evalRef(path []any) Res {
 			i, err := toInt(p)
 			if err != nil {
 				return Res{St: EvalErr, Why: "bad index;"}
+			}
+			if m, isMap := cur.(map[string]any); isMap {
+				// an integer-keyed map of the input (keys kept in decimal notation)
+				v, ok := m[fmt.Sprint(i)]
+				if !ok {
+					return Res{St: EvalErr, Why: "map key not found;"}
+				}
+				cur = v
+				continue
 			}
 			l, ok := cur.([]any)
 			if !ok {
